@@ -16,6 +16,8 @@ D(n, cs) == [name |-> n, chars |-> cs]
 Decos == {
   D("space", <<"w">>), D("tab", <<"w">>), D("newline", <<"nl">>), D("crlf", <<"w", "nl">>), D("blank2", <<"nl", "w", "nl">>),
   D("splice", <<"bs", "nl">>),    \* backslash-newline is removed before tokenisation (phase 2 of translation)
+  D("splice_crlf", <<"bs", "w", "nl">>),   \* the same in a file with CR-LF line ends
+  D("splice2", <<"bs", "nl", "bs", "nl">>),
   D("blk_plain", <<"/", "*", "w", "c", "w", "*", "/">>),
   D("blk_dq", <<"/", "*", "w", "q", "w", "*", "/">>),
   D("blk_sq", <<"/", "*", "w", "s", "w", "*", "/">>),
@@ -32,7 +34,7 @@ Decos == {
   D("line_end", <<"/", "/", "w", "*", "/", "w", "c", "nl">>),
   D("line_define", <<"/", "/", "c", "w", "c", "nl">>) }
 \* the splice is not layout for the scanner above (it works after splicing): it is neutral by phase 2
-Neutral == \A d \in Decos : d.name = "splice" \/ Significant(<<"c">> \o d.chars \o <<"c">>) = <<"c", "c">>
+Neutral == \A d \in Decos : d.name \in {"splice", "splice_crlf", "splice2"} \/ Significant(<<"c">> \o d.chars \o <<"c">>) = <<"c", "c">>
 VARIABLES p, g, d
 Init == p \in 1..NProgs /\ g \in 1..NGaps /\ d \in Decos
 Next == UNCHANGED <<p, g, d>>
